@@ -793,3 +793,46 @@ def _q_text_value(ex, args, kwargs):
 _S.SPEC_FORMS[tagged_text] = _q_tagged_text
 _S.SPEC_FORMS[text_tag] = _q_text_tag
 _S.SPEC_FORMS[text_value] = _q_text_value
+
+
+# ---------------------------------------------------------------------------
+# 9. two more integer primitives (so that a size-dependent byte encoding of a big integer is *refuted* rather than
+#    reported unsupported):
+#    a. x.bit_length() of a symbolic integer the path condition bounds by |x| < 2**K, K <= 512: the number of
+#       k in 0..K-1 with 2**k <= |x| (exact)
+#    b. x.to_bytes(L, order) with a symbolic length the path condition bounds by 0 <= L <= 64: case split on L
+#       (one path per feasible value; each then uses the concrete-length model, OverflowError included)
+# ---------------------------------------------------------------------------
+_orig_int_method = _MC.int_method
+_orig_int_to_bytes = _MC.int_to_bytes
+
+
+def int_method(ex, recv, name, args, kwargs):
+    if name == 'bit_length' and isinstance(recv, Sym) and recv.k == 'int' and not args and not kwargs and not ex.quant:
+        x = recv.t
+        K = None
+        for cand in (8, 16, 32, 64, 128, 256, 512):
+            if ex.proves(z3.And(x > -(1 << cand), x < (1 << cand))):
+                K = cand
+                break
+        if K is None:
+            raise Unsupported('int.bit_length of an integer without a provable bound below 2**512')
+        a = z3.If(x >= 0, x, -x)
+        n = z3.Int(ex.fresh_name('bitlen'))
+        ex.add_def(n == z3.Sum([z3.If(a >= (1 << k), 1, 0) for k in range(K)]))
+        ex.add_def(z3.And(n >= 0, n <= K))
+        M.mark_range(ex, n, 0, K)
+        return Sym(n, 'int')
+    return _orig_int_method(ex, recv, name, args, kwargs)
+
+
+def int_to_bytes(ex, v, length=1, byteorder='big', *, signed=False):
+    ln = M.plain(length)
+    if isinstance(ln, Sym) and ln.k == 'int' and not ex.quant and not ex.spec_mode and ex.proves(z3.And(ln.t >= 0, ln.t <= 64)):
+        k = ex.decide([ln.t == j for j in range(65)], 'to_bytes length')
+        return _orig_int_to_bytes(ex, v, k, byteorder, signed=signed)
+    return _orig_int_to_bytes(ex, v, length, byteorder, signed=signed)
+
+
+_MC.int_method = int_method
+_MC.int_to_bytes = int_to_bytes
